@@ -282,7 +282,7 @@ fn main() {
                 ctx.exhaustive.insert(format!("all Sop/Esop/Soes with <= {} terms, n={}", exh, n), true);
             }
             _ => {
-                let reps = if thorough { 20000 } else { 1500 };
+                let reps = if thorough { 300000 } else { 2000 };
                 for _ in 0..reps {
                     let nn = rng.range(4, 12);
                     let rc = |rng: &mut Rng| {
